@@ -36,7 +36,9 @@ ASSUMPTIONS = [
 RULE = ("every public operation of Polynomial taking a polynomial, every argument position, with k in {1,2,17} stored zero "
         "coefficients and k = 0, owned and borrowed storage, on the operands zero (stored as [], [0]), constants, 1, X, dense "
         "and sparse polynomials on both sides of the square / multiply thresholds; results as normalised value lists, ==, "
-        "DefaultHasher equality, encode; non-trivial = a case with k > 0 or borrowed storage; distinct = distinct case text")
+        "DefaultHasher equality, encode; plus the state left by the library's own operations (in-place += cancelling leading "
+        "terms, scalar_mul_mut(0), shifting zero, products with zero, ...) observed by every operation (`then`, `cmp then`); "
+        "non-trivial = a case with k > 0, borrowed storage or a produced state; distinct = distinct case text")
 
 KS = (1, 2, 17)
 UNARY = ("degree", "coeffs", "intocoeffs", "intoowned", "lc", "isx", "iszero", "isone", "display", "deriv", "neg", "encode",
@@ -197,6 +199,112 @@ def cases(tier, rng):
             if big or (k == 2 and not bo):
                 vals = " ".join(sc(coef(rng, f)) for _ in range(256))
                 add("cmp", "cmp modular_interpolate %s 7 | %s | %s" % (f, vals, g(poly(rng, f, 5))))
+    # ---- the STATE an operation of the library leaves behind (in-place cancellation, multiplication by zero, shifting
+    # zero, ...), observed by every other operation: `then` (model + specification) and `cmp then` (against a fresh copy).
+    # Independent of how Polynomial::new / new_borrowed store their argument.
+    for f in ("b", "x"):
+        w = W[f]
+        zc = [0] * w
+
+        def negc(c):
+            return [(P - v) % P for v in c]
+
+        def producers():
+            """(producer name, [groups]) whose results have cancelled / zeroed leading coefficients"""
+            out_ = []
+            for deg in (0, 1, 2, 5, 9):
+                a = poly(rng, f, deg)
+                for j in sorted({1, 2, deg, deg + 1}):          # cancel the top j coefficients
+                    if j < 1 or j > deg + 1:
+                        continue
+                    q = [coef(rng, f) for _ in range(deg + 1 - j)] + [negc(c) for c in a[deg + 1 - j:]]
+                    if j <= deg and not any(q[deg - j]) and not any(a[deg - j]):
+                        q[deg - j] = [1] + [0] * (w - 1)
+                    k1, k2 = rng.choice((0, 0, 1, 2)), rng.choice((0, 0, 1, 17))
+                    out_.append(("aa", [grp(a, k1, rng.random() < 0.3), grp(q, k2, rng.random() < 0.3)]))
+                    out_.append(("aa", [grp(q[:max(0, deg - j)], 0), grp(a)]))      # rhs longer than lhs
+                    out_.append(("add", [grp(a, k1), grp(q, k2)]))
+                    out_.append(("sub", [grp(a, k1), grp([negc(c) for c in q], k2)]))
+                out_.append(("smm", [grp(a, rng.choice((0, 1))), sc(zc)]))
+                out_.append(("smul", [grp(a), sc(zc)]))
+                out_.append(("scale", [grp(a), sc(zc)]))
+                out_.append(("mul", [grp(a), grp([], rng.choice((0, 1, 2)))]))
+                out_.append(("multiply", [grp([], 1), grp(a, 1)]))
+                out_.append(("neg", [grp(a, rng.choice(KS))]))
+                out_.append(("new", [grp(a, rng.choice(KS), rng.random() < 0.5)]))
+                out_.append(("deriv", [grp(a[:1] + [zc] * deg, 0)]))
+                if deg >= 2:
+                    m = [list(c) for c in a]
+                    m[1] = list(zc)
+                    m[deg - 1] = list(zc)
+                    out_.append(("modx", [str(deg), grp(m)]))
+                    out_.append(("modx", [str(2), grp(m)]))
+                    out_.append(("truncate", [str(deg - 1), grp(m)]))
+                    out_.append(("truncate", [str(0), grp(a, 2)]))
+            for k in (0, 1, 4):
+                for zg in (grp([]), grp([], 1), grp([], 3, True)):
+                    out_.append(("shift", [str(k), zg]))
+            out_.append(("shift", ["3", grp(poly(rng, f, 2), 2)]))
+            return out_
+
+        prods = producers()
+        if not big:
+            prods = [pr for i, pr in enumerate(prods) if pr[0] in ("aa", "smm", "shift") or i % 2 == 0]
+        for (pn, pg) in prods:
+            head = "%s %d" % (pn, len(pg))
+            pgs = " | ".join(pg)
+            for obs in ("lc", "degree", "iszero", "isone", "isx", "coeffs", "intocoeffs", "intoowned", "display", "deriv",
+                        "neg", "encode", "codec", "slowsq", "square"):
+                add("state-then", "then %s %s %s | %s | @" % (f, head, obs, pgs))
+            other = poly(rng, f, rng.choice((0, 1, 3)))
+            for obs in ("eq", "hash", "mul", "add", "sub", "addassign", "multiply"):
+                add("state-then", "then %s %s %s | %s | @ | %s" % (f, head, obs, pgs, grp(other)))
+                add("state-then", "then %s %s %s | %s | %s | @" % (f, head, obs, pgs, grp(other, rng.choice((0, 1)))))
+            add("state-then", "then %s %s hash | %s | @ | @" % (f, head, pgs))
+            add("state-then", "then %s %s eq | %s | @ | %s" % (f, head, pgs, grp([])))
+            add("state-then", "then %s %s hash | %s | %s | @" % (f, head, pgs, grp([], 1)))
+            add("state-then", "then %s %s eval | %s | @ | %s" % (f, head, pgs, sc(coef(rng, f))))
+            add("state-then", "then %s %s smulmut | %s | @ | %s" % (f, head, pgs, sc(coef(rng, f))))
+            add("state-then", "then %s %s scale | %s | @ | %s" % (f, head, pgs, sc(coef(rng, f, True))))
+            for n in (0, 1, 3):
+                add("state-then", "then %s %s shift | %s | %d | @" % (f, head, pgs, n))
+                add("state-then", "then %s %s truncate | %s | %d | @" % (f, head, pgs, n))
+                add("state-then", "then %s %s modx | %s | %d | @" % (f, head, pgs, n))
+            add("state-then", "then %s %s pow | %s | 2 | @" % (f, head, pgs))
+            dvd, dvs = poly(rng, f, 6), poly(rng, f, 2)
+            for sub in ("divide", "naive_divide", "div", "rem", "xgcd", "reduce", "multiply"):
+                add("state-cmp", "cmp then %s %s %s | %s | %s | @" % (f, sub, head, pgs, grp(dvd)))    # as divisor
+                add("state-cmp", "cmp then %s %s %s | %s | @ | %s" % (f, sub, head, pgs, grp(dvs)))    # as dividend
+            add("state-cmp", "cmp then %s is_zero_one_x %s | %s | @" % (f, head, pgs))
+            add("state-cmp", "cmp then %s shift_factor %s | %s | @" % (f, head, pgs))
+            add("state-cmp", "cmp then %s evaluate %s | %s | @ | %s" % (f, head, pgs, sc(coef(rng, f))))
+            dom = " ".join(sc(coef(rng, f)) for _ in range(4))
+            for sub in ("batch_evaluate", "iterative_batch_evaluate", "dac_batch_evaluate"):
+                add("state-cmp", "cmp then %s %s %s | %s | @ | %s" % (f, sub, head, pgs, dom))
+            add("state-cmp", "cmp then %s structured_multiple %s | %s | 6 | @" % (f, head, pgs))
+            add("state-cmp", "cmp then %s fpsi_newton %s | %s | 4 | @" % (f, head, pgs))
+    # ---- the same object on both sides of a by-reference operation
+    for f in ("b", "x"):
+        for deg in (-1, 0, 1, 3, 40, 130, 260):
+            if deg > 100 and f == "x" and not big:
+                continue
+            a = poly(rng, f, deg)
+            for (k, bo) in ((0, False), (2, False), (1, True)):
+                for sub in ("multiply", "naive", "fast", "eq", "hash", "batch"):
+                    add("same-object", "same %s %s | %s" % (f, sub, grp(a, k, bo)))
+    # ---- aliasing: two borrowed polynomials over prefixes of ONE buffer (same address, different lengths)
+    for f in ("b", "x"):
+        for deg in (0, 2, 5):
+            a = poly(rng, f, deg)
+            for k in (0, 2):
+                n = deg + 1 + k
+                pairs = sorted({(0, n), (n, 0), (0, 1), (1, n), (n, 1), (deg + 1, n), (n, deg + 1), (deg, deg + 1), (deg + 1, deg),
+                                (n, n), (0, 0), (1, 1)})
+                for (i, j) in pairs:
+                    if i > n or j > n:
+                        continue
+                    for sub in ("eq", "hash", "add", "sub", "mul", "addassign", "multiply"):
+                        add("alias", "alias %s %s %d %d | %s" % (f, sub, i, j, grp(a, k, True)))
     # clean_divide (base field only): long-division arm and, with a divisor of degree >= 512, the NTT arm
     for (k, bo) in ST:
         if k == 0 and not bo:
@@ -228,7 +336,7 @@ def cases(tier, rng):
 
 
 def nontrivial(case):
-    return re.search(r"\b(o[1-9]\d*|b\d+)\b", case) is not None
+    return case.startswith(("then ", "cmp then ", "alias ", "same ")) or re.search(r"\b(o[1-9]\d*|b\d+)\b", case) is not None
 
 
 def finding_key(case, impl, model):
